@@ -269,6 +269,58 @@ pub fn run_one(def: &PropDef, tier: Tier, seed: u64, index: u64, out: &Path, rep
 // worker: a contiguous slice of seeds in one process
 // ------------------------------------------------------------------------------------------
 
+
+#[allow(clippy::too_many_arguments)]
+fn write_worker_stats(
+    out: &Path,
+    t0: Instant,
+    runs: u64,
+    steps: u64,
+    choice: u64,
+    fired: &BTreeMap<String, u64>,
+    probes: &BTreeMap<String, u64>,
+    hashes: &[u64],
+    ilv: &HashSet<u64>,
+    wl: &HashSet<u64>,
+    sweeps: &HashSet<u64>,
+    samples: &[String],
+) {
+    let wall = t0.elapsed().as_secs_f64();
+    let mut hb = Vec::with_capacity(hashes.len() * 8);
+    for h in hashes {
+        hb.extend_from_slice(&h.to_le_bytes());
+    }
+    let _ = std::fs::write(out.with_extension("hashes"), hb);
+    let mut sw: Vec<u64> = sweeps.iter().copied().collect();
+    sw.sort();
+    let mut il: Vec<u64> = ilv.iter().copied().collect();
+    il.sort();
+    let mut wlv: Vec<u64> = wl.iter().copied().collect();
+    wlv.sort();
+    let mapj = |m: &BTreeMap<String, u64>| {
+        let mut o = J::obj();
+        for (k, v) in m {
+            o.put(k, J::u(*v));
+        }
+        o
+    };
+    let j = J::obj()
+        .set("runs", J::u(runs))
+        .set("steps", J::u(steps))
+        .set("choice_points", J::u(choice))
+        .set("wall_s", J::Num(wall))
+        .set("fault_fired", mapj(fired))
+        .set("probes", mapj(probes))
+        .set("sweep_keys", J::arr_u64(&sw))
+        .set("ilv", J::arr_u64(&il))
+        .set("workloads", J::arr_u64(&wlv))
+        .set("samples", J::arr_str(samples));
+    let tmp = out.with_extension("tmp");
+    if std::fs::write(&tmp, j.to_string()).is_ok() {
+        let _ = std::fs::rename(&tmp, out);
+    }
+}
+
 pub fn worker_main(def: &PropDef, tier: Tier, base: u64, lo: u64, hi: u64, out: &Path) {
     init_process();
     // warm-up run (discarded): lazily created runtime fds must not unbalance the first snapshot
@@ -320,38 +372,12 @@ pub fn worker_main(def: &PropDef, tier: Tier, base: u64, lo: u64, hi: u64, out: 
         if samples.len() < 3 {
             samples.push(format!("seed={seed} index={i}: {}", r.desc));
         }
-    }
-    let wall = t0.elapsed().as_secs_f64();
-    let mut hb = Vec::with_capacity(hashes.len() * 8);
-    for h in &hashes {
-        hb.extend_from_slice(&h.to_le_bytes());
-    }
-    let _ = std::fs::write(out.with_extension("hashes"), hb);
-    let mut sw: Vec<u64> = sweeps.into_iter().collect();
-    sw.sort();
-    let mut il: Vec<u64> = ilv.into_iter().collect();
-    il.sort();
-    let mut wlv: Vec<u64> = wl.into_iter().collect();
-    wlv.sort();
-    let mapj = |m: &BTreeMap<String, u64>| {
-        let mut o = J::obj();
-        for (k, v) in m {
-            o.put(k, J::u(*v));
+        if runs % 512 == 0 {
+            // partial results survive if this process later dies on a violation or is stopped
+            write_worker_stats(out, t0, runs, steps, choice, &fired, &probes, &hashes, &ilv, &wl, &sweeps, &samples);
         }
-        o
-    };
-    let j = J::obj()
-        .set("runs", J::u(runs))
-        .set("steps", J::u(steps))
-        .set("choice_points", J::u(choice))
-        .set("wall_s", J::Num(wall))
-        .set("fault_fired", mapj(&fired))
-        .set("probes", mapj(&probes))
-        .set("sweep_keys", J::arr_u64(&sw))
-        .set("ilv", J::arr_u64(&il))
-        .set("workloads", J::arr_u64(&wlv))
-        .set("samples", J::arr_str(&samples));
-    std::fs::write(out, j.to_string()).expect("write worker stats");
+    }
+    write_worker_stats(out, t0, runs, steps, choice, &fired, &probes, &hashes, &ilv, &wl, &sweeps, &samples);
     hard_exit(0);
 }
 
@@ -615,8 +641,9 @@ pub fn check_main(def: &PropDef, o: &CheckOpts) -> i32 {
     while let Some(mut sl) = pending.pop() {
         let st = sl.child.wait().expect("wait worker");
         let code = st.code().unwrap_or(-1);
-        // partial results are lost when a worker dies on a violation; completed workers report
-        if code == 0 {
+        // workers flush partial statistics periodically, so results of a worker that died on a
+        // violation or was stopped are counted up to its last flush
+        {
             if let Ok(txt) = std::fs::read_to_string(&sl.out) {
                 if let Ok(j) = J::parse(&txt) {
                     agg_runs += j.get("runs").and_then(|x| x.as_u64()).unwrap_or(0);
@@ -654,6 +681,8 @@ pub fn check_main(def: &PropDef, o: &CheckOpts) -> i32 {
                     }
                 }
             }
+        }
+        if code == 0 {
         } else if code == 3 {
             let txt = std::fs::read_to_string(sl.out.with_extension("viol")).unwrap_or_default();
             match J::parse(&txt) {
@@ -696,6 +725,19 @@ pub fn check_main(def: &PropDef, o: &CheckOpts) -> i32 {
         }
     }
 
+    if let Some(r) = &violation {
+        // the failing case itself is always part of the evidence
+        samples.insert(
+            0,
+            J::s(&format!(
+                "VIOLATING seed={} index={}: {}",
+                r.get("seed").and_then(|x| x.as_u64()).unwrap_or(0),
+                r.get("index").and_then(|x| x.as_u64()).unwrap_or(0),
+                r.get("workload").and_then(|x| x.as_str()).unwrap_or("")
+            )),
+        );
+        agg_runs += 1;
+    }
     let mut exit = 0;
     let mut viol_count = 0u64;
     let mut replay_path = String::new();
